@@ -173,4 +173,46 @@ theorem Link_merge_parts (sep : List Char) (esc : Char) (parts : List (List Char
     by_cases hnil : t = [] <;>
     simp_all [mergeOne, join_eq, PyStr.unwrap, bind, Except.bind, pure, Except.pure, closingQuote_nil]
 
+theorem pyReplaceAux_one (a : Char) (new : Str) : ∀ (s : Str) (fuel : Nat), s.length < fuel →
+    pyReplaceAux [a] new fuel s = replace1 a new s := by
+  intro s
+  induction s with
+  | nil => intro fuel h; cases fuel <;> simp [pyReplaceAux, replace1]
+  | cons c s ih =>
+    intro fuel h
+    cases fuel with
+    | zero => simp at h
+    | succ f =>
+      have hf : s.length < f := by simpa using h
+      by_cases hc : c = a
+      · subst hc
+        simp [pyReplaceAux, startsWith, replace1, List.flatMap_cons] 
+        have := ih f hf
+        simp [replace1] at this
+        exact this
+      · have hne : ([c] == [a]) = false := by simp [hc]
+        simp [pyReplaceAux, startsWith, replace1, List.flatMap_cons, hc]
+        have := ih f hf
+        simp [replace1] at this
+        exact this
+
+theorem pyReplace_one (a : Char) (new s : Str) : pyReplace [a] new s = replace1 a new s := by
+  simp [pyReplace, pyReplaceAux_one a new s (s.length + 1) (by omega)]
+
+/-- the text `csv.dump` produces for one field (generated from the loop body of rxsci/container/csv.py `dump`) is the model's
+`dumpField` -/
+theorem Link_csv_dump_field (esc : Char) (f : CsvField) : Gen.csv_dump_field [esc] f = dumpField esc f := by
+  cases f <;> simp [Gen.csv_dump_field, CsvField.pyTypeIn, CsvField.pyType, CsvField.pyStr, dumpField, escapeStr, pyReplace_one]
+
+/-- **the row part of `csv.dump`'s `on_next`**, generated from rxsci/container/csv.py, is the model's `dumpRow` — the function
+`C18_roundtrip` is about — for every separator, every escape character and every row of ints, floats, bools, strings and `None` -/
+theorem Link_csv_dump_row (sep : Str) (esc : Char) (row : List CsvField) :
+    Gen.csv_dump_row sep [esc] ['\n'] row = dumpRow sep esc row := by
+  simp only [Gen.csv_dump_row, dumpRow, join_eq]
+  congr 2
+  apply List.map_congr_left
+  intro f _
+  exact Link_csv_dump_field esc f
+
+
 end Rx
